@@ -85,16 +85,14 @@ func genPath(rng *rand.Rand, s tbl.SessionSpec, id uint32) (tbl.PathSpec, string
 		p.ASPath = append(p.ASPath, tbl.Seg{Set: true, ASNs: []uint32{[]uint32{localASN2, localASN3, localASN4}[rng.IntN(3)], 65301}})
 		kind = "as-loop"
 	case 2:
-		if s.IBGP {
-			p.OrigID = s.RouterID
-			kind = "originator-id"
-		}
+		// (reflection attributes also on eBGP sessions: the decoder accepts them on any session and the statement
+		// does not restrict the rule to internal peers)
+		p.OrigID = s.RouterID
+		kind = "originator-id"
 	case 3:
-		if s.IBGP {
-			p.OrigID = 0x09090909
-			p.Cluster = &[]uint32{5, []uint32{clusterID, clusterID2, clusterID3}[rng.IntN(3)], 6}
-			kind = "cluster-loop"
-		}
+		p.OrigID = 0x09090909
+		p.Cluster = &[]uint32{5, []uint32{clusterID, clusterID2, clusterID3}[rng.IntN(3)], 6}
+		kind = "cluster-loop"
 	case 4:
 		if !s.IBGP {
 			p.ASPath = nil
